@@ -142,6 +142,8 @@ func lemmaFreqHasLocsRoundTrip(freq uint64, hasLocs bool) {
 //@ ensures s.f == nil ==> $liveFiles == old($liveFiles)
 //@ ensures s.f == old(s.f) && s.refs == old(s.refs)
 //@ ensures muHeld(s.m) == old(muHeld(s.m))
+// the final release also lets go of the thesaurus cache (its entries point into the mapping that is going away)
+//@ ensures s.synIndexCache.cache == nil [C20]
 //@ end
 
 // the reference count is read and written only under the segment's mutex, and the resources are released
@@ -524,6 +526,8 @@ func verifModelBinaryWrite(w io.Writer, order binary.ByteOrder, data any) error 
 // a visit fails only when the meta stream or the compressed block cannot be decoded (a stored value - empty ones at the
 // very end of the block included - is never rejected for its position)
 //@ failsonly err from encoding/binary.ReadUvarint, github.com/golang/snappy.Decode [C02,C05]
+// the pooled scratch for a value's array positions is (re)allocated wide enough for this value before it is sliced
+//@ assert store vdc#1 : numap <= 0x3fffffffffffffff ==> cap($v) >= int(numap) [C02,C05]
 //@ tags [C02,C11]
 //@ requires s != nil && vdc != nil && poolOwned(vdc)
 //@ ghostinit $visStopped = false
@@ -572,6 +576,7 @@ func verifModelBinaryWrite(w io.Writer, order binary.ByteOrder, data any) error 
 //@ func mergeAndPersistInvertedSection$2 returns (err)
 //@ thin
 //@ tags [C06,C08]
+//@ wf requires len(bufMaxVarintLen64) >= 10
 //@ assert (*vellum.Builder).Insert#1 : $val == postingsOffset && postingsOffset > 0 [C06,C08,C09]
 //@ ensures err == nil ==> bmSet(newRoaring) == sEmpty() [C06,C08]
 //@ ensures err == nil ==> lastDocNum == 0 && lastFreq == 0 && lastNorm == 0 [C06,C08]
@@ -602,6 +607,8 @@ func lemma1HitDiscriminator(docNum, normBits uint64) {
 //@ assert (*Thesaurus).synonymsListFromOffset#1 : !bm64Empty(newRoaring) ==> bytesEq(row(prevTerm), off(prevTerm), len(prevTerm), row(term), off(term), len(term)) [C13]
 //@ assert (*vellum.Builder).Close#1 : bm64Empty(newRoaring) [C13]
 //@ assert newEnumerator#1 : len(termSynMap) == 0 && newSynonymID == 0 [C09,C13]
+// a merged thesaurus is filed under the MERGED segment's id of its field
+//@ loop 1 step thesaurusID == prev(thesaurusID) + 1 && 0 <= fieldID && fieldID < 65536 ==> haskey(fieldIDtoThesaurusID, uint16(fieldID)) && mapget(fieldIDtoThesaurusID, uint16(fieldID)) == prev(thesaurusID) && haskey(thesaurusAddrs, prev(thesaurusID)) [C12,C13]
 // the FST builder is always re-pointed at an emptied buffer (bytes left from the previous thesaurus would be written
 // in front of the next one)
 //@ assert (*vellum.Builder).Reset#1 : typeis($w, ptr_bytes_DOT_Buffer) && len(ptr_bytes_DOT_Buffer(payload($w)).buf) == 0 && ptr_bytes_DOT_Buffer(payload($w)).off == 0 [C09,C13]
@@ -920,6 +927,8 @@ func lemma1HitDiscriminator(docNum, normBits uint64) {
 //@ thin
 //@ tags [C06,C07]
 //@ requires i != nil
+// the iterator's scratch buffer, once allocated (two varints wide), is never replaced by a shorter one
+//@ wf requires base(i.buf) == nil || len(i.buf) >= 20
 //@ wf requires itGeneral(i) ==> itWF(i) && itSubset(i) && i.includeFreqNorm
 //@ requires itInv(i) [C07]
 //@ assert (*PostingsIterator).readFreqNormHasLocs#1 : i.normBits1Hit == 0 ==> itLockAt(i, docNum) [C06,C07]
@@ -1524,8 +1533,8 @@ func lemmaUvLenRange(a []byte, o int) {}
 // the first step of an enumeration skips nothing (an input whose first key is the empty key is live)
 //@ func newEnumerator returns (e, err)
 //@ thin
-//@ tags [C06,C08,C13]
-//@ assert (*enumerator).updateMatches#1 : !$skipEmptyKey [C06,C08,C13]
+//@ tags [C05,C06,C08,C13]
+//@ assert (*enumerator).updateMatches#1 : !$skipEmptyKey [C05,C06,C08,C13]
 //@ end
 
 // ---- C01 / C06 / C09: a term's postings block ----
@@ -1534,6 +1543,8 @@ func lemmaUvLenRange(a []byte, o int) {}
 //@ func writePostings returns (offset, err)
 //@ thin
 //@ tags [C01,C06,C09]
+// the scratch buffer handed in takes any varint (callers allocate it with MaxVarintLen64)
+//@ requires len(bufMaxVarintLen64) >= 10
 //@ wf requires w != nil && tfEncoder != nil && locEncoder != nil
 //@ wf requires tfEncoder != locEncoder && coderShape(tfEncoder) && coderShape(locEncoder) && len(tfEncoder.chunkLens) <= 0x03ffffffffffffff && len(locEncoder.chunkLens) <= 0x03ffffffffffffff
 //@ assert (*chunkedIntCoder).writeAt#1 : $c == tfEncoder [C01,C06,C09]
@@ -1542,6 +1553,7 @@ func lemmaUvLenRange(a []byte, o int) {}
 //@ assert encoding/binary.PutUvarint#2 : $x == locOffset [C01,C06,C09]
 //@ assert writeRoaringWithLen#1 : $r == postings [C01,C06,C09]
 //@ ensures postings == nil ==> offset == 0 && err == nil [C01,C06,C09]
+//@ ensures postings != nil && old(sCard(bmSet(postings))) == 0 ==> offset == 0 && err == nil && w.n == old(w.n) [C01,C06,C08,C09]
 //@ propagates err from (*chunkedIntCoder).writeAt, (*CountHashWriter).Write, writeRoaringWithLen [C17]
 //@ end
 
@@ -1555,6 +1567,8 @@ func lemmaUvLenRange(a []byte, o int) {}
 //@ func writeRoaringWithLen returns (tw, err)
 //@ thin
 //@ tags [C01,C06,C09]
+// the scratch buffer handed in takes any varint (callers allocate it with MaxVarintLen64)
+//@ requires len(reuseBufVarint) >= 10
 //@ assert encoding/binary.PutUvarint#1 : int($x) == len(buf) && base($buf) == base(reuseBufVarint) [C01,C06,C09]
 //@ assert io.Writer.Write#1 : len($p) == n && base($p) == base(reuseBufVarint) && off($p) == off(reuseBufVarint) [C01,C06,C09]
 //@ assert io.Writer.Write#2 : len($p) == len(buf) && base($p) == base(buf) && off($p) == off(buf) [C01,C06,C09]
@@ -1753,11 +1767,16 @@ func lemmaUvLenRange(a []byte, o int) {}
 //@ func writeSynonyms returns (offset, err)
 //@ thin
 //@ tags [C09,C12,C13]
+// the scratch buffer handed in takes any varint (callers allocate it with MaxVarintLen64)
+//@ requires len(bufMaxVarintLen64) >= 10
 //@ wf requires w != nil && postings != nil
 //@ assert encoding/binary.PutUvarint#1 : int($x) == len(buf) && postingsOffset == uint64(w.n) [C09,C12,C13]
 //@ assert (*CountHashWriter).Write#1 : len($b) == n && base($b) == base(bufMaxVarintLen64) && off($b) == off(bufMaxVarintLen64) [C09,C12,C13]
 //@ assert (*CountHashWriter).Write#2 : len($b) == len(buf) && base($b) == base(buf) && off($b) == off(buf) [C09,C12,C13]
 //@ local ensures err == nil && termCardinality > 0 ==> offset == postingsOffset [C09,C12,C13]
+// an empty list writes nothing and has offset 0 (its term then does not enter the FST: a term whose definitions all
+// died disappears from the merged thesaurus)
+//@ ensures old(bm64Empty(postings)) ==> offset == 0 && err == nil && w.n == old(w.n) [C12,C13]
 //@ propagates err from (*roaring/v2/roaring64.Bitmap).ToBytes, (*CountHashWriter).Write [C17]
 //@ end
 
@@ -1765,6 +1784,8 @@ func lemmaUvLenRange(a []byte, o int) {}
 //@ func writeSynTermMap returns (err)
 //@ thin
 //@ tags [C09,C12,C13]
+// the scratch buffer handed in takes any varint (callers allocate it with MaxVarintLen64)
+//@ requires len(bufMaxVarintLen64) >= 10
 //@ wf requires w != nil
 //@ assert encoding/binary.PutUvarint#1 : int($x) == len(synTermMap) [C09,C12,C13]
 //@ assert encoding/binary.PutUvarint#2 : $x == uint64(sid) && term == mapget(synTermMap, sid) [C09,C12,C13]
@@ -2299,6 +2320,9 @@ func lemmaSynonymCodeRoundTrip(synonymID, docID uint32) {
 //@ assume (*docValueReader).visitDocValues.visitor#1 : di.curChunkData == old(di.curChunkData) && di.uncompressed == old(di.uncompressed) && di.curChunkNum == old(di.curChunkNum)
 //@ loop 1 invariant di.curChunkData == old(di.curChunkData) && di.curChunkNum == old(di.curChunkNum) && base(uncompressed) == base(di.uncompressed) && decodedFrom(base(di.uncompressed)) == base(di.curChunkData) [C03]
 //@ assert bytes.Index#1 : decodedFrom(base($s)) == base(di.curChunkData) [C03]
+// every term found - the empty term (separator at position 0) included - is handed to the visitor, cut at the separator
+//@ follows (*docValueReader).visitDocValues.visitor after bytes.Index when $i >= 0 [C03]
+//@ assert (*docValueReader).visitDocValues.visitor#1 : base($term) == base(uncompressed) && off($term) == off(uncompressed) && len($term) == i && $field == di.field [C03]
 //@ ensures err == nil && len(di.uncompressed) > 0 ==> decodedFrom(base(di.uncompressed)) == base(di.curChunkData) [C03]
 //@ ensures di.curChunkData == old(di.curChunkData) && di.curChunkNum == old(di.curChunkNum)
 //@ end
@@ -2308,6 +2332,9 @@ func lemmaSynonymCodeRoundTrip(synonymID, docID uint32) {
 //@ tags [C03]
 //@ requires s != nil
 //@ assert (*docValueReader).visitDocValues#1 : $di.curChunkNum == docInChunk && $docNum == localDocNum [C03]
+// a field name the segment does not know is skipped, not taken for the end of the list (one list serves many segments)
+//@ loop 1 nobreak [C03]
+//@ loop 2 nobreak [C03]
 //@ assert getChunkSize#1 : $chunkMode == LegacyChunkMode [C03,C09]
 // a visit state handed in from another segment - or one that was never bound - gets a new reader table before it is used:
 // every reader consulted below was cloned from this segment's readers
